@@ -113,7 +113,7 @@ def alphabet(version):
                   f"{n};255;4;0;0;", f"{n};255;4;0;9;", f"{n};255;3;0;99;", f"{n};255;3;0;0;nan", f"{n};255;3;0;0;-inf", f"{n};255;3;0;0;1e999",
                   f"{n};255;3;0;0;100.4", f"{n};255;3;0;0;-0.4", f"{n};255;3;0;0; 55", f"{n};255;3;0;0;5_5", f"{n};255;3;0;0;", f"{n};255;3;0;22;-7",
                   f"{n};2;0;0;14;heater", f"{n};2;1;0;22;1", f"{n};4;0;0;23;custom", f"{n};4;1;0;0;7", f"{n};4;1;0;24;v", f"{n};2;1;0;21;Off"]
-    lines += ["1;255;3;0;abc;57", "0;255;3;0;;2.2", "1;1;1;0;x;1", "1;255;3;0;3.0;", "1;255;4;0;zz;",
+    lines += ["0;255;3;0;15;", "0;255;3;0;16;", "1;255;3;0;17;abc", "0;255;3;0;2;1.5.0", "0;255;3;0;2;1.4.1", "1;255;3;0;abc;57", "0;255;3;0;;2.2", "1;1;1;0;x;1", "1;255;3;0;3.0;", "1;255;4;0;zz;",
               "255;255;3;0;3;", "0;255;3;0;14;ready", "0;255;3;0;9;log", "0;255;3;0;2;2.2.0", "0;255;3;0;2;2.0.0", "0;255;3;0;2;1.5.1", "0;255;3;0;2;garbage",
               "0;255;3;0;2;", "1;2", "", "x;1;1;0;0;1", "1;1;1;0;0", "256;1;1;0;0;1", "1;255;1;0;0;1", "1;1;3;0;0;1", "1;1;3;0;3;"]
     return lines
@@ -139,6 +139,10 @@ def scripted(ver):
         pres + [("recv", wake), ("send", 1, 1, 1, 0, 0, "25", True), ("recv", "1;1;2;0;0;"), ("recv", wake), ("recv", wake)],
         [("recv", "0;255;3;0;2;"), ("recv", "0;255;3;0;2;abc"), ("recv", "3;255;3;0;2;n/a"), ("recv", "0;255;3;0;2;2.3.2"), ("recv", "0;255;3;0;9;log")],
         [("recv", f"0;255;0;0;18;{v}"), ("recv", "0;255;3;0;2;2.0.0"), ("recv", f"0;255;0;0;18;{v}"), ("recv", "0;255;3;0;32;")],
+        # version switches, types that exist only from 1.5 on (the active table must gate them at every moment, whatever was seen before)
+        [("recv", "0;255;3;0;2;1.5.0"), ("recv", "0;255;3;0;16;"), ("recv", "0;255;3;0;15;"), ("recv", "0;255;3;0;2;1.4.1"), ("recv", "0;255;3;0;16;"),
+         ("recv", "0;255;3;0;15;"), ("recv", "0;255;3;0;2;2.2.0"), ("recv", "1;255;3;0;32;"), ("recv", "0;255;3;0;2;2.0.0"), ("recv", "1;255;3;0;32;")],
+        [("recv", "0;255;3;0;16;"), ("recv", "0;255;3;0;17;n"), ("recv", "1;255;3;0;22;5"), ("recv", "1;255;3;0;32;")],
         pres + [("recv", "1;255;3;0;0;nan"), ("recv", "1;255;3;0;0;NaN"), ("recv", "1;255;3;0;0;inf"), ("recv", "1;255;3;0;0;1e999"), ("recv", "1;255;3;0;0;100.4"),
                 ("recv", "1;255;3;0;0;-0.4"), ("recv", "1;255;3;0;0;55")],
         pres + [("recv", "1;2;0;0;14;heater"), ("recv", "1;2;1;0;22;1"), ("recv", "1;2;1;0;21;Off"), ("recv", "1;4;0;0;23;custom"), ("recv", "1;4;1;0;0;7"),
